@@ -23,7 +23,7 @@ type C19Params struct {
 	EPN     int       `json:"epn"`
 	Cache   int       `json:"cache"`
 	Streams [][]C19Op `json:"streams"`
-	Shared  bool      `json:"shared"` // all connections on one prefix (else one prefix each)
+	Shared  bool      `json:"shared"`        // all connections on one prefix (else one prefix each)
 	Mem     bool      `json:"mem,omitempty"` // every connection first creates a table in the process-wide in-memory bucket (no s3_bucket)
 }
 
